@@ -244,7 +244,7 @@ def run(tier):
                                                  'reported as a correspondence difference'},
                     'model_invariants_static_solver': dict(sinv, what='Vpsc/StaticInvB.v evaluated by the extracted static model on every state of the merge pass of '
                                                            'Solver::satisfy (after every iteration of mergeLeft and after every variable of the total order): heap_ok and act_inv '
-                                                           '(proved, all multigraphs); on DAGs also the unproved content of static_no_throw_on_dag: every constraint between processed '
+                                                           '(proved, all multigraphs); on DAGs also the content of static_no_throw_on_dag (now PROVED for the model, Vpsc/StaticDag.v; still evaluated): every constraint between processed '
                                                            'variables has slack >= 0 EXACTLY, processed variables never move right, the heap root is a most violated in-constraint, every '
                                                            'violated in-constraint is in the heap, and every slack >= 0 after the pass; a failure is reported as a correspondence difference'),
                     'oracle': {'violations': len(oracle_viol) - known_hits, 'runs_with_flagged_constraints': flagged_runs, 'detector_answers': det_stats},
@@ -308,8 +308,14 @@ META = {
                   'executable model Vpsc/StaticModel.v (shape-exact pairing heaps under CompareConstraints, block / constraint time stamps, DFS total order, '
                   'mergeLeft / mergeRight / split / refine) compared exactly with vpsc::Solver on every static instance (evidence correspondence_static_solver); '
                   'proved for it: C01_static_satisfy_sat (return => book, act_inv, slack >= -1e-10, active constraints exactly tight; all multigraphs), '
-                  'C01_static_solve_sat_declarative; static_no_throw_on_dag only partially (C01_static_no_throw_on_dag_partial; its order argument is evaluated '
-                  'on every visited state of every DAG instance, evidence model_invariants_static_solver). '
+                  'C01_static_solve_sat_declarative; C01_static_no_throw_on_dag (Vpsc/StaticGeom.v, StaticHeapOrd.v, StaticDag.v): if the DFS order of '
+                  'Blocks::totalOrder lists every variable once and every constraint goes forward in it (boolean dag_orderb = StaticInvB.is_dag + no repetition, '
+                  'decided from total_order alone) then Solver::satisfy RETURNS - no UnsatisfiedConstraint, the fuel and the null-heap cases it stands for '
+                  'suffice - and every constraint has slack >= 0 exactly (heap order under lazily stale keys, leftward monotonicity, most-violated-first '
+                  'invariant; the boolean forms are still evaluated on every visited state of every DAG instance, evidence model_invariants_static_solver). '
+                  'The DFS hypothesis is discharged for ranked graphs (Vpsc/StaticDfs.v, C01_static_total_order_topo / C01_static_no_throw_on_ranked_dag: every '
+                  'constraint goes from a lower to a higher rank, ranks <= number of variables - which every finite DAG admits and removeoverlaps\' sets come with). '
+                  'Not proved: any no-throw statement for Solver::refine (split / mergeRight). '
                   'Weight histories: the block-statistics invariant (all_ok) is not proved for them (stale sums in deleted blocks); its weight-independent part '
                   '(A2 > 0, posn = (AD-AB)/A2) is evaluated on every visited model state (all_invb_w).',
     'technique': 'Coq proof of verified oracles and model invariants + extracted-model correspondence against libvpsc and libavoid/vpsc.cpp',
